@@ -44,6 +44,7 @@ func runC05(c *Config, r *Report) {
 	c05R12(ic, r)
 	c05R13(ic, r)
 	c05R14(ic, r)
+	c04R20(ic, r, "R05.15")
 	c05R11(ic, r)
 	c05R3(ic, r)
 	c05R5(ic, r)
@@ -682,19 +683,30 @@ func c05R11(ic *IC, r *Report) {
 					continue
 				}
 				if vid := identOf(kv.Value); vid != nil {
-					obj := info.ObjectOf(vid)
-					ast.Inspect(fl.Body, func(q ast.Node) bool {
-						if as, isAs := q.(*ast.AssignStmt); isAs && len(as.Lhs) == len(as.Rhs) {
-							for i, l := range as.Lhs {
-								if lid := identOf(l); lid != nil && info.ObjectOf(lid) == obj {
-									if c, isC := unparen(as.Rhs[i]).(*ast.CallExpr); isC && isCallTo(info, c, "reflect.Value.Elem") && len(callsIn(info, c, true, "reflect.New")) > 0 {
-										ok = true
+					// the recorded value, or a local it is assigned from, is reflect.New(T).Elem()
+					var isCopy func(obj types.Object, depth int) bool
+					isCopy = func(obj types.Object, depth int) bool {
+						found := false
+						ast.Inspect(fl.Body, func(q ast.Node) bool {
+							if as, isAs := q.(*ast.AssignStmt); isAs && len(as.Lhs) == len(as.Rhs) {
+								for i, l := range as.Lhs {
+									if lid := identOf(l); lid != nil && info.ObjectOf(lid) == obj {
+										if c, isC := unparen(as.Rhs[i]).(*ast.CallExpr); isC && (isCallTo(info, c, "reflect.Value.Elem") && len(callsIn(info, c, true, "reflect.New")) > 0 || copiers(ic)[funcOf(info, c)]) {
+											found = true
+										}
+										if rid := identOf(as.Rhs[i]); rid != nil && depth < 2 && info.ObjectOf(rid) != obj && isCopy(info.ObjectOf(rid), depth+1) {
+											found = true
+										}
 									}
 								}
 							}
-						}
-						return true
-					})
+							return true
+						})
+						return found
+					}
+					if isCopy(info.ObjectOf(vid), 0) {
+						ok = true
+					}
 				}
 			}
 			return true
@@ -704,6 +716,24 @@ func c05R11(ic *IC, r *Report) {
 	}
 	if n == 0 {
 		r.Errorf("R05.11: no run-time closure found in getMethod")
+	}
+	// the receiver generator is built whatever the kind of receiver the method declares: a
+	// pointer receiver is a value too (the pointer), read from a variable that can be assigned
+	// before the method value is called (go w.run(out) in a loop over []*worker, f := w.get; w = other)
+	nGen := 0
+	for _, c := range callsIn(info, fi.Decl.Body, false, "interp.genValueRecv") {
+		nGen++
+		bad := ""
+		for _, g := range pathGuards(fi.Decl.Body, c) {
+			if len(callsIn(info, g.cond, true, "interp.hasPtrRecv")) > 0 {
+				bad = types.ExprString(g.cond)
+			}
+		}
+		r.Check(bad == "", "R05.11", fmt.Sprintf("getMethod/receiver-generator#%d/for-pointer-receivers-too", nGen), ic.pos(c.Pos()), "the receiver is evaluated with the method value whatever the declared receiver",
+			"getMethod evaluates the receiver with the method value only under "+bad+": for a method declared with a pointer receiver the receiver variable is read when the function value is called - go w.run(out) in a loop over []*worker starts every goroutine on the last worker ([3 3 3 3]), and f := w.get; w = other; f() calls other's")
+	}
+	if nGen == 0 {
+		r.Errorf("R05.11: getMethod builds no receiver generator (genValueRecv)")
 	}
 }
 
@@ -952,6 +982,7 @@ func c05R13(ic *IC, r *Report) {
 }
 
 func init() {
+	ruleText["R05.15"] = "= R04.20 shared: the dynamic value of an interface is a copy of the value it was made from"
 	ruleText["R05.14"] = "the field path of a method receiver (receiver.index) is walked through the interface wrappers: every loop over that path (in the function reading it or in the helper it is handed to) that steps with reflect.Value.Field also asserts valueInterface at each step, and the path is never given to reflect's FieldByIndex - the embedded field may be an interface whose dynamic value holds the receiver"
 }
 
@@ -1048,4 +1079,10 @@ func c05R14(ic *IC, r *Report) {
 	if nLoops == 0 {
 		r.Errorf("R05.14: no walk of a receiver field path found")
 	}
+}
+
+// funcOf returns the *types.Func a call statically invokes, or nil.
+func funcOf(info *types.Info, c *ast.CallExpr) *types.Func {
+	f, _ := calleeOf(info, c).(*types.Func)
+	return f
 }
